@@ -348,6 +348,12 @@ func (e *Evaluator) evalExpr(expr Expr) (*Cell, error) {
 	case *ExprObject:
 		obj := NewObject()
 		for _, kv := range exp.Items {
+			// a key is a string literal (or a bare word) like any other: escapes apply
+			key, err := e.evalString(kv.Key)
+			if err != nil {
+				return nil, e.error(kv.KeyToken, err.Error())
+			}
+
 			value, err := e.evalExpr(kv.Value)
 			if err != nil {
 				return nil, err
@@ -359,7 +365,7 @@ func (e *Evaluator) evalExpr(expr Expr) (*Cell, error) {
 				return nil, e.error(expr.Token(), err.Error())
 			}
 
-			(*obj.Obj)[kv.Key] = newCell
+			(*obj.Obj)[*key.Value.Str] = newCell
 		}
 		return NewCell(obj), nil
 	default:
